@@ -135,6 +135,8 @@ fn plan_for(c: &Common, index: u64) -> (u64, Plan) {
     if FORCE_T.load(std::sync::atomic::Ordering::SeqCst) {
         plan.tracing = true;
     }
+    // Only ever execute what a replay file can hold: the plan after a JSON round trip.
+    let plan: Plan = serde_json::from_str(&serde_json::to_string(&plan).expect("plan serialises")).expect("plan round-trips");
     (run_seed, plan)
 }
 
